@@ -8,7 +8,7 @@ from ..cfg import build_cfg, calls_in, node_calls
 from ..core import Ctx, property_info, rule
 from ..events import event_of_yield, node_events
 from ..model import AnalysisError, FuncInfo, walk_no_nested
-from ..q import A, Dispatch, asrc, call_name_of, calls_named, func_text, leaves_at, raw_forms, enum_members, flow_conditions, flows, forms, is_self_attr, kwarg, return_values, stores, str_template, template_text, unparse
+from ..q import A, Dispatch, passes, value_texts, reach_table, reach_env, node_containing, asrc, call_name_of, calls_named, func_text, leaves_at, raw_forms, enum_members, flow_conditions, flows, forms, is_self_attr, kwarg, return_values, stores, str_template, template_text, unparse
 
 PAR = "xsdata.formats.dataclass.parsers"
 SER = "xsdata.formats.dataclass.serializers.mixins"
@@ -62,10 +62,10 @@ def field_coverage(ctx: Ctx) -> None:
     reads = {n.attr for n in walk_no_nested(cde.node) if isinstance(n, ast.Attribute) and isinstance(n.value, ast.Name) and n.value.id == "value"}
     ctx.ob("convert_derived_element reads qname and value of the derived element", {"qname", "value"} <= reads, at=cde, construct="derived reads", msg=f"reads {sorted(reads)}")
     tp = ctx.repo.func(f"{PAR}.tree:TreeParser.start")
-    ok = any(unparse(c.func) == "WildcardNode" and unparse(kwarg(c, "factory") or ast.Constant(0)) == "self.context.class_type.any_element" for c in calls_in(tp.node))
+    ok = any(func_text(tp, c) == "WildcardNode" and passes(ctx, tp, c, "factory", "self.context.class_type.any_element") for c in calls_in(tp.node))
     ctx.ob("TreeParser.start builds the same WildcardNode (factory = the generic element class)", ok, at=tp, construct="tree parser node", msg="the stand-alone tree parser builds another tree")
     en = ctx.repo.func(f"{PAR}.nodes.element:ElementNode.build_node")
-    ok = any(unparse(c.func) == "nodes.WildcardNode" and unparse(kwarg(c, "factory") or ast.Constant(0)) == "self.context.class_type.any_element" and unparse(kwarg(c, "position") or ast.Constant(0)) == "position"
+    ok = any(func_text(en, c) == "nodes.WildcardNode" and passes(ctx, en, c, "factory", "self.context.class_type.any_element") and passes(ctx, en, c, "position", "position")
              for c in calls_in(en.node))
     ctx.ob("ElementNode.build_node falls back to WildcardNode(position=position, factory=generic element)", ok, at=en, construct="wildcard fallback", msg="unknown elements under a wildcard are not captured generically")
     fa = ctx.repo.func(f"{PAR}.nodes.wildcard:WildcardNode.fetch_any_children")
@@ -112,8 +112,8 @@ def sibling_attribute_treatment(ctx: Ctx) -> None:
     """Both binders of generic elements pass the raw attributes through parse_any_attributes(attrs, ns_map)."""
     for q in (f"{PAR}.nodes.wildcard:WildcardNode.bind", f"{PAR}.nodes.element:ElementNode.bind_wild_text"):
         fi = ctx.repo.func(q)
-        calls = [c for c in calls_in(fi.node) if unparse(c.func) == "ParserUtils.parse_any_attributes"]
-        ok = len(calls) == 1 and [unparse(a) for a in calls[0].args] == ["self.attrs", "self.ns_map"]
+        calls = [c for c in calls_in(fi.node) if func_text(fi, c) == "ParserUtils.parse_any_attributes"]
+        ok = len(calls) == 1 and passes(ctx, fi, calls[0], "attrs", "self.attrs") and passes(ctx, fi, calls[0], "ns_map", "self.ns_map")
         ctx.ob(f"{q.split(':')[1]}: attributes = parse_any_attributes(self.attrs, self.ns_map)", ok, at=fi, construct="generic attributes", msg="attribute QName values are expanded in one sibling only")
     pa = ctx.repo.func(f"{PAR}.utils:ParserUtils.parse_any_attributes")
     rv = return_values(pa.node)
@@ -220,9 +220,9 @@ def whitespace_only_text(ctx: Ctx) -> None:
             tail_ok = tail_ok and bool(tl2) and all(isinstance(leaf, ast.Call) and call_name_of(leaf) == "normalize_content" for leaf in tl2)
     ctx.ob("the tail is always normalised", tail_ok, at=fi, construct="tail normalisation", msg="layout whitespace bound as tail (or deciding between generic element and plain text)")
     first = [c for c in calls_in(fi.node) if unparse(c.func) == "self.fetch_any_children"]
-    ctx.ob("children = fetch_any_children(self.position, objects)", len(first) == 1 and [unparse(x) for x in first[0].args] == ["self.position", "objects"], at=fi, construct="children fetch", msg="children taken from another position")
+    ctx.ob("children = fetch_any_children(self.position, objects)", len(first) == 1 and passes(ctx, fi, first[0], "position", "self.position") and passes(ctx, fi, first[0], "objects", "objects"), at=fi, construct="children fetch", msg="children taken from another position")
     apps = [(n, c) for n in g.stmts() for c in node_calls(n) if isinstance(c.func, ast.Attribute) and c.func.attr == "append" and unparse(c.func.value) == "objects"]
-    once = bool(apps) and all(isinstance(c.args[0], ast.Tuple) and unparse(c.args[0].elts[0]) == "self.var.qname" for _, c in apps) and not any(
+    once = bool(apps) and all(any(isinstance(tp_, ast.Tuple) and tp_.elts and "self.var.qname" in value_texts(fi, getattr(tp_, "_xsa_at", None) or c, tp_.elts[0]) for tp_ in leaves_at(fi, c, c.args[0])) for _, c in apps) and not any(
         b.id in g.reachable([m for m, _ in g.succ[a.id]]) for a, _ in apps for b, _ in apps)
     ctx.ob("exactly one object is appended per generic element, under the wildcard field's qname", once, at=fi, construct="one result", msg="result appended differently")
 
@@ -353,14 +353,45 @@ def routing_key_and_tail_flag(ctx: Ctx) -> None:
     bw = ctx.repo.func(f"{PAR}.nodes.element:ElementNode.bind_wild_text")
     g = build_cfg(bw.node)
     flags = [g.node_of(st) for st, tgt, v in stores(bw.node) if is_self_attr(tgt, "tail_processed")]
-    lt = [t for t in g.nodes if t.kind == "test" and unparse(t.ast) == "var.list_element"]  # `var` is a parameter
-    stored = [n for n in g.stmts() if any(isinstance(c.func, ast.Name) and any(k.arg == "tail" for k in c.keywords) for c in node_calls(n))]
-    ok = len(flags) == 1 and len(lt) == 1 and bool(stored) and g.only_if(flags[0].id, lt[0].id, False) and all(g.must_pass(g.entry, flags[0].id, [x.id for x in stored]) for _ in [0])
-    ctx.ob("bind_wild_text sets tail_processed only on the branch that stored the tail in the generic element (not for list wildcards)", ok, at=bw, construct="tail_processed flag",
-           msg="the flag is set although the list-wildcard branch never stores the tail: ElementNode.bind then skips appending it and the text after the element is lost")
+    stored = [n for n in g.stmts() if any(any(k.arg == "tail" for k in c.keywords) for c in node_calls(n))]
+    ok = len(flags) == 1 and flags[0] is not None and bool(stored) and g.must_pass(g.entry, flags[0].id, [x.id for x in stored])
+    if ok:
+        tab = reach_table(bw, flags[0], [{"var.list_element": True}], raw=True)
+        ok = None if tab is None else tab == {(True,): False, (False,): True}
+    if ok is not None:
+        ctx.ob("bind_wild_text sets tail_processed only on the branch that stored the tail in the generic element (not for list wildcards)", ok, at=bw, construct="tail_processed flag",
+               msg="the flag is set although the list-wildcard branch never stores the tail: ElementNode.bind then skips appending it and the text after the element is lost")
 
 
 def anon(fi, node):
     from ..model import anon_text
 
     return anon_text(node, fi.node)
+
+
+@rule("C11.R11")
+def qname_valued_attributes_are_recognised(ctx: Ctx) -> None:
+    """EventHandler.is_xsi_type - the test that decides whether an attribute value in Clark notation is written back as a prefixed QName -
+    holds for an xsi:type attribute with ANY type name and for any attribute whose value names an XSD datatype."""
+    from ..q import cmp_atom, predicate_table
+
+    fi = ctx.repo.func(f"{SER}:EventHandler.is_xsi_type")
+    tab = predicate_table(fi, [cmp_atom("qname", "==", "QNames.XSI_TYPE"), cmp_atom("DataType.from_qname(value)", "is not", "None"), {"isinstance(value, str)": True}])
+    if tab is None:
+        ctx.abstain("is_xsi_type condition", at=fi)
+        return
+    bad = sorted(k for k, v in tab.items() if v != (k[2] and (k[0] or k[1])))
+    ctx.ob("is_xsi_type(qname, value) holds iff value is a string and (qname is xsi:type or value names an XSD datatype)", not bad, at=fi, construct="is_xsi_type table",
+           msg=f"(is xsi:type attribute, names a datatype, is a string) rows that differ: {bad}: an xsi:type naming a foreign type / a QName-valued attribute is written as the literal '{{uri}}local'")
+    aa = ctx.repo.func(f"{SER}:EventHandler.add_attribute")
+    conv = [c for c in calls_in(aa.node) if call_name_of(c) == "QName"]
+    ctx.ob("add_attribute turns such values into QName objects (prefix assigned on encoding)", bool(conv) and any(call_name_of(c) == "is_xsi_type" for c in calls_in(aa.node)), at=aa, construct="qname conversion",
+           msg="Clark-notation values are written verbatim")
+    for c in conv:
+        t2 = reach_table(aa, c, [{"self.is_xsi_type(qname, value)": True, "cls.is_xsi_type(qname, value)": True}], raw=True)
+        if t2 is not None:
+            ctx.ob("add_attribute converts exactly the values is_xsi_type accepts", t2 == {(True,): True, (False,): False}, at=aa, node=c, construct="qname conversion guard", msg=f"conversion runs under {t2}")
+
+from .c08 import unprefixed_attribute_values_stay_plain  # noqa: E402
+
+share("C11", "C11.R12", unprefixed_attribute_values_stay_plain)
